@@ -22,8 +22,9 @@ META = {
                'K3 lemma below.',
     'bounds': 'instants 0..2^32-1; microsecond 0..999999; utc offsets and standard offsets -50400..50400 s; '
               'DST flag; naive / aware / struct_time (tm_isdst=-1, with and without tm_gmtoff); via encode.timestamp, '
-              'encode_table_value, Basic.Properties.timestamp in a content header',
-    'outside': 'instants after 2106 (documented exception); historical zone changes; tm_isdst = 0/1 '
+              'encode_table_value, Basic.Properties.timestamp in a content header; decode also of the '
+              'millisecond readings 2^32..253402300799999 (whole seconds and zone compared)',
+    'outside': 'encoding of instants after 2106 (documented exception); the sub-second part of millisecond readings; historical zone changes; tm_isdst = 0/1 '
                'struct_time values; fold; binary64 rounding beyond the K3 lemma',
     'cuts': ['exception message formatting'],
     'assumptions': ['K3 (discharged as an LRA query): for 0 <= sec < 2^32, 0 <= us < 10^6 and any q with '
@@ -78,6 +79,25 @@ def body(n, std, dst):
     c, v = decode.embedded_value(hx.buf([ord('T')]) + data)
     p = hx.dt_parts(v)
     return ok and c == 9 and p is not None and p[0] is True and p[1] == n and p[3] == 0
+'''
+
+DECODE_MS = '''
+def body(v, std, dst):
+    # wire values above 2^32-1 are read as milliseconds (sixth seeded round, H15_1): the branch must be as
+    # zone-independent as the seconds branch. The six low octets are the symbolic input and n is their
+    # linear combination (building octets from n by div/mod makes every solver query slow).
+    hx.env_zone(std, dst)
+    bl = hx.blist(v, 6)
+    n = ((((bl[0] * 256 + bl[1]) * 256 + bl[2]) * 256 + bl[3]) * 256 + bl[4]) * 256 + bl[5]
+    if not (2**32 <= n <= 253402300799999):
+        return hx.rejected()
+    data = hx.buf([0, 0] + bl)
+    c, v1 = decode.timestamp(data)
+    p = hx.dt_parts(v1)
+    ok = c == 8 and p is not None and p[0] is True and p[1] == n // 1000 and p[3] == 0
+    c, v2 = decode.embedded_value(hx.buf([ord('T')]) + data)
+    p = hx.dt_parts(v2)
+    return ok and c == 9 and p is not None and p[0] is True and p[1] == n // 1000 and p[3] == 0
 '''
 
 MODELLED = {
@@ -161,6 +181,11 @@ def partitions(tier, seed):
                       ['0 <= n < 2**32', '-50400 <= std <= 50400'], DECODE, PRE, 150,
                       family='tz_independence', bound='decode of every 32-bit timestamp under every zone',
                       rep={'n': 1089590400, 'std': 3600, 'dst': True}, tz_replay=True))
+    parts.append(Part('tz_decode_ms', [('v', 'bytes'), ('std', 'int'), ('dst', 'bool')],
+                      ['len(v) == 6', '-50400 <= std <= 50400'], DECODE_MS, PRE, 150,
+                      family='tz_independence',
+                      bound='decode of every millisecond timestamp 2^32..253402300799999 (year 9999) under every zone',
+                      rep={'v': {'__bytes__': '%012x' % 1720000000123}, 'std': -18000, 'dst': True}, tz_replay=True))
     tw = Part('twin_tz_naive', params, pre, (BODY % {'kind': 0}).replace('    return ok\n', '    return not ok\n'),
               PRE, 60, expect='refuted', family='tz_independence', bound='vacuity twin')
     parts.append(tw)
